@@ -31,6 +31,6 @@ def words (s : String) : List String :=
   (s.splitOn " ").filter (· ≠ "")
 
 def errStr : Err → String
-  | .eof => "eof" | .err => "err" | .panic => "panic"
+  | .eof => "eof" | .err => "err" | .panic => "panic" | .hang => "hang"
 
 end QiVerif.Driver
